@@ -117,10 +117,30 @@ func c43(r *vkit.Run) {
 		"(overlong) p+1 > L with all bytes = p and with filler bytes; (empty) L=0. Oracle = plain-loop transcription of the statement. "+
 		"Every evaluation is counted; distinct keys are (L, p, variant) (the per-position/per-mask evaluations of one-wrong share one key). "+
 		"Non-trivial = the verdict depends on the window content (valid, valid-outside-equal, one-wrong); overlong/empty are trivial. "+
-		"removePaddingSSL30 is not covered: the statement defines TLS semantics only.", c43MaxLen, masks))
+		"removePaddingSSL30 is not covered by this direct family: the statement defines TLS semantics only. "+
+		"RECORD-LAYER family (c43rec.go): for every CBC cipher suite of the real cipherSuites table (bfe_tls.VerifCBCSuites: AES-128/256-CBC-SHA, 3DES-EDE-CBC-SHA, SM4-SM3; "+
+		"quick: full sweep on the first suite of each cipher/MAC family, p in {0,1,bs-1,bs,255} on its key-exchange siblings; thorough: full sweep on all) x version in "+
+		"{SSL 3.0, TLS 1.0 (implicit IV), TLS 1.1, TLS 1.2 (explicit IV)} x last byte p in 0..255 the harness itself MACs and CBC-encrypts (seeded keys, three sequence numbers) "+
+		"payloads data||MAC(data)||window and runs the real halfConn.decrypt on them (bfe_tls.VerifRecordDecrypt): (valid) window = p x(p+1), two data lengths (thorough three); "+
+		"(all-wrong) only the length byte right; (one-wrong) EVERY distance j in 1..p XOR one mask of %v per position (thorough: every mask, every data length); "+
+		"(strip1) data||MAC(data)||p, whose MAC verifies once exactly one byte is stripped, short (p+1 > len) and long (p inside) payloads; (overlong) every block-aligned "+
+		"payload length < p+1 the record layer looks at, all-p and random. Oracle per decrypted payload P: TLS 1.0/1.1/1.2: c43Ref(P) rejects -> record must be rejected; "+
+		"c43Ref(P) accepts and the MAC before the padding is correct -> record must be accepted with exactly p+1 (+MAC) bytes stripped; accepts but MAC wrong -> no verdict. "+
+		"SSL 3.0 (padding content unspecified there): p+1 > len -> must be rejected; all-equal padding with p < block size and correct MAC -> must be accepted, exact strip; "+
+		"everything else at SSL 3.0 is observed and counted without verdict. Inconclusive if any shape (valid, valid p=255, one-wrong nearest/farthest/distance-255/inner, "+
+		"all-wrong, strip1, overlong) never occurred at a version, or a table suite is unknown to the harness. Record keys are (version, suite, p, data length, variant); "+
+		"non-trivial = the verdict depends on the window content.", c43MaxLen, masks, masks))
+	r.Assume("record-layer family: halfConn built by bfe_tls.VerifRecordDecrypt through the table's own suite.cipher/suite.mac, prepareCipherSpec, changeCipherSpec; one record per halfConn")
 	r.Assume("removePadding observed through bfe_tls.VerifRemovePadding (len(in)-len(out), good); halfConn.decrypt treats good==255 as accepted")
 	st := &c43Stats{}
 	if r.Replay != "" {
+		var rw c43RecWitness
+		if err := r.LoadReplay(&rw); err == nil && rw.Family == "record" {
+			c43RecReplay(r, &rw)
+			r.Evals(1)
+			r.SetMinDistinct(0)
+			return
+		}
 		var w c43Witness
 		if err := r.LoadReplay(&w); err != nil {
 			r.Inconclusive(err.Error())
@@ -197,6 +217,7 @@ func c43(r *vkit.Run) {
 			}
 		}
 	})
+	c43Record(r, masks)
 	r.Count("spec_accept", st.acceptWant)
 	r.Count("spec_reject", st.rejectWant)
 	r.Count("observed_good_255", st.acceptGot)
